@@ -21,7 +21,7 @@ ID = "C20"
 LEVEL = "exploration"
 ENGINE = "opmachine"
 
-TIERS = {"quick": {"runs": 480, "budget": 75.0, "cap": 150.0},
+TIERS = {"quick": {"runs": 1600, "budget": 75.0, "cap": 150.0},
          "thorough": {"runs": 200000, "budget": 900.0, "cap": 300.0}}
 
 LAYOUTS = ["c", "f", "strided", "readonly", "f_readonly"]
